@@ -26,7 +26,7 @@ try:
     meta["confirmed"]["demo_on_pristine_exit"] = r0.returncode
     ap_ = sh(f"git -C {wt} apply {a.src}/patch.diff")
     meta["confirmed"]["patch_applies"] = ap_.returncode == 0
-    t = sh(f"/tmp/seedtools/run_tests.sh {wt}")
+    t = sh(f"/verif/tools/run_tests.py {wt}")
     meta["confirmed"]["stable_tests"] = t.stdout.strip().splitlines()[-1] if t.stdout.strip() else t.stderr[-300:]
     meta["confirmed"]["tests_ok"] = t.returncode == 0
     r1 = sh(f"cd /tmp && {env} /venv/bin/python {a.src}/demo.py")
@@ -73,7 +73,7 @@ _notes = open(f"{a.src}/notes.md").read() if os.path.exists(f"{a.src}/notes.md")
 _s = _re.split(r'(?<=[.!?])\s+', " ".join(_notes.split()))
 meta["breaks_property"] = a.prop
 meta["needs_to_manifest"] = " ".join([x for x in _s if _re.search(r"manifest|only (shows|when|if|with|after)|needs|requires|trigger", x, _re.I)][:4])[:900] or _notes[:600]
-meta["what_i_ran"] = [f"fresh worktree of /repo HEAD: demo.py (expect exit 0), git apply patch.diff, /tmp/seedtools/run_tests.sh (114 stable tests), demo.py (expect exit 1)",
+meta["what_i_ran"] = [f"fresh worktree of /repo HEAD: demo.py (expect exit 0), git apply patch.diff, /verif/tools/run_tests.py (114 stable tests), demo.py (expect exit 1)",
                       f"git -C /repo apply patch.diff; ./sx check {a.prop} --tier {a.tier}; git -C /repo checkout -- ."]
 json.dump(meta, open(f"{dst}/meta.json", "w"), indent=1)
 print("kept" if ok else "NOT CONFIRMED", "->", dst)
